@@ -5,7 +5,7 @@ Decided:
          [0, size-1] (must-facts on the in-range result); with clamping the results are exactly 0 / size-1
          (dates: start / end); raw item access rejects negative indices
   R17.2  the slot table has ceil((end-start)/resolution) + 1 entries; index -> time is start + i*resolution
-         (strictly increasing in i); time -> index truncates (end-start)/resolution
+         (strictly increasing in i); time -> index is the floor of (t-start)/resolution
   R17.3  sentinel/domain collision: a variable initialised to a literal and tested against it as "unset"
          must not be assigned values whose range contains the literal (run start in the interval scan)
   R17.4  the compiled and the Python implementation of every conversion agree (pair comparison of C13)
@@ -150,13 +150,15 @@ def run(ctx: Ctx):
     ok = m == "+" and "self.resolution" in norm(last.value) and "self.startDate" in norm(last.value)
     ctx.ob("R17.2", f"{i2d.qual}: {norm(last.value)}", (i2d, last), ok, "time(i) = start + i * resolution: strictly increasing" if ok else
            f"index -> time is not start + i * resolution (monotonicity {m})", key="R17.2|idxToDate|formula")
-    asg = [x for x in own_nodes(d2i) if isinstance(x, ast.Assign) and norm(x.targets[0]) == "idx" and "int(" in norm(x.value)]
-    ok = bool(asg) and norm(asg[0].value) == "int(diff / self.resolution)"
+    asg = [x for x in own_nodes(d2i) if isinstance(x, ast.Assign) and norm(x.targets[0]) == "idx" and "diff / self.resolution" in norm(x.value)]
+    # floor, not truncation: an instant before the start must get a negative index (and be rejected / clamped), not slot 0
+    ok = bool(asg) and norm(asg[0].value) in ("math.floor(diff / self.resolution)", "int(math.floor(diff / self.resolution))")
     dres = local_resolver(d2i.node)
     diff_ok = any(norm(v) in ("diff_result.total_seconds()",) for v in dres(ast.Name(id="diff", ctx=ast.Load()))) and \
         any(norm(v) == "date - self.startDate" for v in dres(ast.Name(id="diff_result", ctx=ast.Load())))
-    ctx.ob("R17.2", f"{d2i.qual}: {norm(asg[0]) if asg else '-'}", d2i, ok and diff_ok, "index(t) = trunc((t - start) / resolution)" if ok and diff_ok else
-           "time -> index is not trunc((t - start) / resolution)", key="R17.2|dateToIdx|formula")
+    ctx.ob("R17.2", f"{d2i.qual}: {norm(asg[0]) if asg else '-'}", d2i, ok and diff_ok, "index(t) = floor((t - start) / resolution)" if ok and diff_ok else
+           "time -> index is not floor((t - start) / resolution): int() truncates toward zero, so an instant up to one slot before the "
+           "start maps to slot 0 and is accepted where it must be rejected", key="R17.2|dateToIdx|formula")
     ps = repo.func("Project.scoreboardSize")
     first = [s for s in ps.node.body if isinstance(s, ast.If)][0]
     ok = norm(first.test) == "self.scoreboard" and any(isinstance(s, ast.Return) and norm(s.value) == "self.scoreboard.size" for s in first.body)
@@ -276,15 +278,35 @@ def run(ctx: Ctx):
                f"a path from the non-matching branch reaches the loop step without resetting {var}: a run that is too short is not "
                "discarded and leaks into the next run (one interval is reported across the gap)",
                key=f"R17.5|collectIntervals|reset {var}")
+    # an interval is reported only if something of the run is left after clipping it to the query window
+    fci = facts_of(ci)
+    apps = [n for n in gci.nodes if n.kind == "stmt" and n.ast is not None and any(
+        isinstance(c, ast.Call) and isinstance(c.func, ast.Attribute) and c.func.attr == "append" and norm(c.func.value) == "intervals"
+        for c in ast.walk(n.ast))]
+    if not apps:
+        raise AnchorMissing("collectIntervals: intervals.append not found")
+    for n in apps:
+        cl = fci.holds(n, lambda t, p: p and t.replace(" ", "") in ("start<current_idx", "current_idx>start"))
+        ctx.ob("R17.5", f"{ci.qual}: {norm(n.ast)[:60]} only for a non-empty clipped run", (ci, n.ast), cl is not None,
+               "reported under the fact start < end after clipping" if cl else
+               "a run found in the look-back / look-ahead padding is clipped to the window and reported although nothing of it lies "
+               "inside: a zero-length interval is returned",
+               key="R17.5|collectIntervals|non-empty")
+    pd2i = repo.func("Project.dateToIdx")
+    pasg = [x for x in own_nodes(pd2i) if isinstance(x, (ast.Assign, ast.AnnAssign)) and "scheduleGranularity" in norm(x.value) and "diff_seconds" in norm(x.value)]
+    ok = bool(pasg) and all("math.floor(" in norm(x.value) for x in pasg)
+    ctx.ob("R17.2", f"{pd2i.qual}: {norm(pasg[0].value) if pasg else '-'}", pd2i, ok, "index(t) = floor((t - start) / granularity)" if ok else
+           "project time -> index is not a floor: an instant before the project start maps to slot 0",
+           key="R17.2|Project.dateToIdx|formula")
     ms = [x for x in own_nodes(ci) if isinstance(x, ast.Assign) and norm(x.targets[0]) == "minDurationSlots" and "int(" in norm(x.value)]
     ok = bool(ms) and norm(ms[0].value) == "int(minDuration / self.resolution)"
     ctx.ob("R17.5", f"{ci.qual}: {norm(ms[0]) if ms else '-'}", ci, ok, "minimum duration converted to slots" if ok else
            "minimum duration is not converted with the table resolution", key="R17.5|collectIntervals|min slots")
     ctx.floor("R17.1", 9)
-    ctx.floor("R17.2", 4)
+    ctx.floor("R17.2", 5)
     ctx.floor("R17.3", 2)
     ctx.floor("R17.4", 5)
-    ctx.floor("R17.5", 9)
+    ctx.floor("R17.5", 10)
 
 
 def _ancestors(n):
